@@ -70,6 +70,17 @@ CHECKS["C13"] = dict(
 CHECKS["C14"] = dict(
    text="create_callback (with code between creation and result()), wait_for_callback and invoke in three placements x all terminal and non-terminal backend outcomes x delivery instant (at the START call, at a later call of the creating invocation, while PENDING, after an unrelated/spurious wake-up) x every crash point: callback id equals the backend-issued one in every invocation, create_callback never raises because of the outcome, result()/invoke suspend while outstanding and then deliver exactly the payload or raise (CallbackError for result()), exactly one invoke START carrying the serialized payload, target and tenant.",
    note=SIM_NOTE, technique=SIM_TECH, design="6/C14", engine="vsched+durable-sim")
+CHECKS["C16"] = dict(
+   text="Child context results of 256KB-1/256KB/256KB+1/300000 characters (with/without summary generator, nested), parallel and map whose batch result and/or item results exceed the limit (no/custom/default/SDK-default summary generator), each followed by >=2 replaying invocations, every single crash point and three pagination modes; handler results and errors of limit-1/limit/limit+1/6MB+1 with a crash around the EXECUTION record. Oracle: no CONTEXT payload above the limit, oversized results carry the summary and ReplayChildren, replays deliver an equal value with no completed step re-entered and no new record, every branch with a large result still succeeds, oversized handler outcomes are recorded before the empty-payload status.",
+   note=SIM_NOTE + " Real payloads are used; no size constant is patched. Between the SDK's threshold (6MB-50) and 6MB either inline or recorded is accepted.",
+   technique=SIM_TECH, design="6/C16", engine="vsched+durable-sim")
+CHECKS["C17"] = dict(
+   text="Sequential programs of <=3 units over 11 unit kinds (<=4 in thorough) with a log call in every gap and inside every step/check/submitter body and a capturing logger installed through set_logger; every history a suspension or single crash can leave, every pagination split of the history. Oracle: in a first invocation every log call is emitted; in a resuming invocation a gap log is emitted iff it does not precede the last unit completed before the invocation began, logs inside newly executed functions are emitted; records carry the ARN, operation id/name/attempt and parent id.",
+   note=SIM_NOTE + " Invocations whose history holds only unfinished operations are not judged (the statement leaves them open).",
+   technique=SIM_TECH, design="6/C17", engine="vsched+durable-sim")
+CHECKS["C18"] = dict(
+   text="Handlers returning 9 kinds of values, raising 13 exception classes from four placements, failing serialization/validation, suspending from 8 parking shapes; checkpoint faults of four classes and get-state faults at every call position of 6 (quick) / 12 (thorough) programs with pagination and three policies; 16 malformed payloads. Oracle: the wrapper returns a well-formed dict (SUCCEEDED+JSON text / FAILED+error object or EXECUTION record / bare PENDING) or raises, and raises only for retriable checkpoint errors, invocation-class errors or malformed payloads; user errors => FAILED with the error type, suspension => PENDING; no handler-pool thread is alive afterwards; every invocation ends.",
+   note=SIM_NOTE, technique=SIM_TECH, design="6/C18", engine="vsched+durable-sim")
 NOT_YET = {}
 
 def main():
